@@ -134,7 +134,7 @@ func (g *random) next(w *world, step int) *cmdSpec {
 		return &cmdSpec{Kind: "commit"}
 	}
 	// candidates from the real state
-	var pend, act, evd, placed []string
+	var pend, act, evd, term, placed []string
 	for _, name := range w.pods {
 		t := w.pod(name)
 		if t == nil {
@@ -145,6 +145,9 @@ func (g *random) next(w *world, step int) *cmdSpec {
 			pend = append(pend, name)
 		case t.Status == pod_status.Releasing && t.IsVirtualStatus && g.evicted[name]:
 			evd = append(evd, name)
+		case t.Status == pod_status.Releasing:
+			// terminating in the snapshot, or evicted by an earlier (committed) statement of this program
+			term = append(term, name)
 		case pod_status.IsActiveAllocatedStatus(t.Status) && !t.IsVirtualStatus && t.Status != pod_status.Pipelined:
 			if c := w.copyOn(t.NodeName, name); c != nil && c.Status == t.Status && eqGroups(c.GPUGroups, t.GPUGroups) {
 				act = append(act, name)
@@ -183,6 +186,22 @@ func (g *random) next(w *world, step int) *cmdSpec {
 			p := u.Pick(r, again)
 			g.evicted[p] = true
 			return &cmdSpec{Kind: "evict", Pod: p}
+		}})
+	}
+	// Evict applied to a pod that is already Releasing: one evicted earlier by this statement (once or several
+	// times, possibly un-evicted and evicted again in between), or one that is really terminating. Statement.Evict
+	// leaves such a pod alone (83a0ca3, bce7109); whatever follows (rollback / discard / commit / un-evict) must behave as if
+	// the command had not been issued.
+	// One time in three the command hands Statement.Evict a copy of the pod taken when the session was built (its
+	// Status does not follow the statement), as the scenario solvers do.
+	if len(evd) > 0 {
+		cs = append(cs, choice{6, func() *cmdSpec {
+			return &cmdSpec{Kind: "evict", Pod: u.Pick(r, evd), Stale: r.Chance(1, 3)}
+		}})
+	}
+	if len(term) > 0 {
+		cs = append(cs, choice{4, func() *cmdSpec {
+			return &cmdSpec{Kind: "evict", Pod: u.Pick(r, term), Stale: r.Chance(1, 3)}
 		}})
 	}
 	if len(pend) > 0 {
@@ -323,7 +342,7 @@ func (g *random) nextNonWf(w *world, pend, act, evd, placed []string) *cmdSpec {
 	case 0, 1:
 		g.hasEvict = true
 		if len(evd) > 0 && r.Chance(1, 2) {
-			return &cmdSpec{Kind: "evict", Pod: u.Pick(r, evd)} // the same pod evicted twice
+			return &cmdSpec{Kind: "evict", Pod: u.Pick(r, evd)} // the same pod evicted twice (ignored since 83a0ca3 + bce7109)
 		}
 		return &cmdSpec{Kind: "evict", Pod: name}
 	case 2, 3:
@@ -562,6 +581,15 @@ func Run(dir string, seed uint64, n int, tier string) error {
 			if res.reUnevict > 0 {
 				out.Count("programs-with-second-uneviction:" + stream)
 			}
+			for k, v := range res.ignoredEvict {
+				out.CountN("evict-of-releasing-pod:"+k, v)
+			}
+			if len(res.ignoredEvict) > 0 {
+				out.Count("programs-with-evict-of-releasing-pod:" + stream)
+			}
+			for k, v := range res.ignoredThen {
+				out.CountN("evict-of-releasing-pod-then-"+k, v)
+			}
 			for k, v := range res.reUnevictThen {
 				out.CountN("second-uneviction-then-"+k, v)
 			}
@@ -619,7 +647,7 @@ func Run(dir string, seed uint64, n int, tier string) error {
 			out.NonTrivial(label)
 		}
 	}
-	out.Stats["rule"] = "command programs (<= 60 commands: Evict / Pipeline / Allocate / Unevict / Checkpoint / Rollback / Discard / Commit / ConvertAllAllocatedToPipelined, nested checkpoints, evict-then-pipeline of the same pod to the same devices / other devices of the node / another node, re-eviction of a pod that was un-evicted earlier in the same statement (evict, un-evict, evict, un-evict ... of one pod by Unevict and by Pipeline onto its own node, then Commit / Rollback / Discard; counted in the distribution), fractional, multi-fraction, gpu-memory, whole-GPU and CPU-only pods, Cache.Bind / Cache.Evict failures in 1/4 of the programs) run on the real framework.Statement over sessions from cycle.Build; 5/6 follow the status preconditions (wf), 1/6 ignore them (nonwf: run and compared with the model, not monitored); plus real scheduling cycles for the at-most-once clause. Non-trivial = a program with a rollback or discard that undoes at least two operations of different kinds, or a cycle that issued a call; distinct by full program."
+	out.Stats["rule"] = "command programs (<= 60 commands: Evict / Pipeline / Allocate / Unevict / Checkpoint / Rollback / Discard / Commit / ConvertAllAllocatedToPipelined, nested checkpoints, evict-then-pipeline of the same pod to the same devices / other devices of the node / another node, re-eviction of a pod that was un-evicted earlier in the same statement (evict, un-evict, evict, un-evict ... of one pod by Unevict and by Pipeline onto its own node, then Commit / Rollback / Discard; counted in the distribution), Evict applied to pods that are already Releasing - evicted earlier by the same statement, by an earlier statement of the program, or terminating in the snapshot - as a legal command of the well-formed stream (weight 6 / 4 of ~35; one time in three Statement.Evict is handed a copy of the pod taken when the session was built, whose Status does not follow the statement, as the scenario solvers do; followed by un-evict / rollback / discard / commit; counted as evict-of-releasing-pod:* in the distribution), fractional, multi-fraction, gpu-memory, whole-GPU and CPU-only pods, Cache.Bind / Cache.Evict failures in 1/4 of the programs) run on the real framework.Statement over sessions from cycle.Build; 5/6 follow the status preconditions (wf), 1/6 ignore them (nonwf: run and compared with the model, not monitored); plus real scheduling cycles for the at-most-once clause. Non-trivial = a program with a rollback or discard that undoes at least two operations of different kinds, or a cycle that issued a call; distinct by full program."
 	out.Stats["queue_usage_observable"] = "Session.QueueAllocatedResources (Allocated only, whole GPUs once >= 1); AllocatedNotPreemptible has no exported reader and is not compared"
 	return out.Flush()
 }
